@@ -27,6 +27,10 @@ extern "C" void __wrap_exit(int code) {
     __real_exit(code);
 }
 
+// the nesting counter of Value::parse_args, where the tree has one (detected, so that older trees still build)
+template <class T> auto reset_nesting(int) -> decltype(T::parse_nesting = 0, void()) { T::parse_nesting = 0; }
+template <class T> void reset_nesting(long) {}
+
 static int g_target = 0;
 static void quiet(const char*...) {}
 
@@ -135,6 +139,7 @@ static void t_spend(const uint8_t* data, size_t size) {
 extern "C" int LLVMFuzzerTestOneInput(const uint8_t* data, size_t size) {
     if (size > 20000) return 0;
     g_in_target = true;
+    reset_nesting<Value>(0);       // (an exit() taken from inside nested parsing was turned into a longjmp: no unwinding happened)
     if (setjmp(g_exit_jmp) == 0) {
         switch (g_target) {
         case 0: t_value(data, size); break;
